@@ -20,7 +20,7 @@ func (propC04) ID() string { return "C04" }
 
 var c04Kinds = []string{"ok", "refuse", "rst", "blackhole", "fin", "garbage"}
 var c04Balancers = []string{"priority", "round-robin", "least-connections"}
-var c04HistKinds = []string{"fin", "garbage", "rst", "client-abort"}
+var c04HistKinds = []string{"fin", "garbage", "rst", "client-abort", "client-cancel"}
 
 func asserted(kind string) bool {
 	return kind == "refuse" || kind == "rst" || kind == "blackhole"
@@ -44,6 +44,9 @@ func c04Resp(kind, tag string) Resp {
 		return Resp{Status: 200, Tag: tag, Chunks: []Chunk{{N: 200}}, Fault: &Fault{At: "before-headers", Kind: "fin"}}
 	case "garbage":
 		return Resp{Kind: "raw", Raw: "SMTP 220 ready\r\n\x00\x01\x02 not http\r\n\r\n"}
+	case "client-cancel":
+		// nothing wrong with the backend either: it takes its time, and the client gives up before the headers
+		return Resp{Status: 200, Tag: tag, PreDelay: 1500 * time.Millisecond, Chunks: []Chunk{{N: 150}, {N: 350}}}
 	case "client-abort":
 		// nothing wrong with the backend: a large answer whose client hangs up in the middle of it
 		return Resp{Status: 200, Tag: tag, Chunks: []Chunk{{N: 262144}, {N: 262144}, {N: 262144}, {N: 262144}, {N: 262144}, {N: 262144}}}
@@ -136,6 +139,9 @@ func (propC04) Gen(seed uint64, tier string, idx int) *Plan {
 			Body: BodySpec{Kind: "json", N: 120, Model: "m1"}, Deadline: 15 * time.Second, Expect: "history"})
 		if hk == "client-abort" {
 			p.Ops[len(p.Ops)-1].Abort = &Abort{At: "resp", K: 20000 + r.Pick(200000), Kind: pickS(r, []string{"rst", "rst", "fin"})}
+		}
+		if hk == "client-cancel" {
+			p.Ops[len(p.Ops)-1].Abort = &Abort{At: "before-response", K: 1000 * (50 + r.Pick(600)), Kind: pickS(r, []string{"rst", "fin"})}
 		}
 		id++
 	}
@@ -334,6 +340,9 @@ func (propC04) Check(r *Run) []Violation {
 			if A != nil && A.Completed && (c.BodyErr != "" || len(c.Body) != len(A.BodyWrote)) {
 				add("C04/served-response-incomplete", "op %d: backend %s answered completely (%d B) but the client got %d B, err=%q", c.OpID, A.Backend, len(A.BodyWrote), len(c.Body), c.BodyErr)
 			}
+		} else if c.Aborted != "" {
+			// the client left before an answer: nothing is owed to it (what its leaving does to the endpoint's
+			// standing is judged below and at the end)
 		} else if !c.TimedOut || c.Status != 0 {
 			// failed: legitimate only if every candidate was tried, or skipped with a possibly-open circuit
 			allAsserted := true
@@ -388,6 +397,9 @@ func (propC04) Check(r *Run) []Violation {
 		}
 		// after the request: connection-level failures must be out of rotation
 		for _, a := range atts {
+			if c.Aborted != "" {
+				break // (an attempt cut short by the client's own departure says nothing about the endpoint)
+			}
 			if a.kind == "refused" || a.kind == "timeout" || a.kind == "rst" {
 				st, ok := statusBefore(r.Stack.Rec, a.ep, c.DoneStep+1, c.DoneAt)
 				if ok && routableStr(st) {
@@ -395,8 +407,12 @@ func (propC04) Check(r *Run) []Violation {
 				}
 			}
 		}
-		// update failure memory
+		// update failure memory (a client that leaves while an endpoint is working on its request has not seen
+		// that endpoint fail: such an attempt is no reason for any breaker to open)
 		for _, a := range atts {
+			if c.Aborted != "" && (a.kind == "other" || a.kind == "timeout") {
+				continue // (no fault on the backend's side: it was still working, or being dialled, when the client left)
+			}
 			if a.kind == "ok" {
 				failsSinceSuccess[a.ep] = 0
 			} else {
